@@ -148,7 +148,32 @@ class Report:
         vio_records = []
         seen_replay = {}
         todo = []
+        # the native replay budget goes first to violations of different functions / clauses / variants (many
+        # refuted obligations are the same clause on different paths)
+        import re as _re
+
+        def _group(ob):
+            n = _re.sub(r"#[ps]\d+$", "", ob["name"])
+            return (_re.sub(r"\{[^}]*\}", "", n), n)
+
+        buckets = {}
         for ob in violations:
+            g = _group(ob)
+            buckets.setdefault(g[0], {}).setdefault(g[1], []).append(ob)
+        ordered = []
+        layers = [[v for v in b.values()] for b in buckets.values()]
+        depth = 0
+        while any(layers):
+            for lay in layers:
+                if lay:
+                    grp = lay.pop(0)
+                    ordered.append(grp[0])
+                    if len(grp) > 1:
+                        lay.append(grp[1:])
+            depth += 1
+            if depth > 10000:
+                break
+        for ob in ordered:
             rp = ob.get("replay")
             key = json.dumps(rp, sort_keys=True) if rp else None
             if rp and key not in seen_replay and len(seen_replay) < 24:
